@@ -243,7 +243,7 @@ Section Metadata.
            (md_scopes s) /\
     (* every recorded value owner is an address that may hold the scope coin *)
     Forall (fun kr => forall a, tget (fst kr) (md_vo s) = Some a ->
-                      a <> [] /\ addr_ok a = true /\ blocked a = false) (md_scopes s) /\
+                      addr_ok a = true /\ blocked a = false) (md_scopes s) /\
     tsorted (md_sessions s) /\ Forall (fun kr => fst kr = se_id (snd kr)) (md_sessions s) /\
     tsorted (md_records s) /\
     Forall (fun kr => rec_addr (rc_session (snd kr)) (rc_name (snd kr)) = Some (fst kr)) (md_records s) /\
